@@ -775,3 +775,5 @@ for _n in range(1, 7):
     B("C08", _n)
 for _n in range(1, 7):
     B("C07", _n)
+for _n in range(1, 7):
+    B("C14", _n)
